@@ -1,5 +1,7 @@
 """C12 - Hankel/Toeplitz layout.  Model: coq/Model/M_hankel.v; theorems: coq/Properties/C12.v."""
-import itertools
+import glob
+import json
+import os
 from fractions import Fraction
 
 import numpy as np
@@ -8,13 +10,54 @@ from common import clist, parse_mat, qc, qc_mat
 from pyoma2.functions import ssi
 
 HEADER = "From PyOMA.Model Require Import M_hankel."
+VERIF = os.path.dirname(os.path.dirname(os.path.dirname(os.path.abspath(__file__))))
+
+
+def ofail(ctx, key, what, case, limit=2):
+    """ctx.fail('oracle', ...) at most `limit` times per key (the framework only looks at the first 50 failures)."""
+    seen = ctx.__dict__.setdefault("_c12_keys", {})
+    seen[key] = seen.get(key, 0) + 1
+    if seen[key] <= limit:
+        ctx.fail("oracle", what, case, key=key)
+
+
+def biteq(a, b):
+    return a.shape == b.shape and a.dtype == b.dtype and a.tobytes() == b.tobytes()
+
+
+def bh(ctx, Y, Yr, br, method, case=None, restore=True):
+    """ssi.build_hank(...)[0] with the oracle clause that goes with EVERY call: build_hank is a function of its
+    arguments, so the caller's records (float64) are bit-identical afterwards.  With restore=True altered records are
+    put back so that the other clauses judge the intended data."""
+    y0 = Y.copy()
+    r0 = None if Yr is Y else Yr.copy()
+    H = ssi.build_hank(Y, Yr, br, method)[0]
+    changed = []
+    if not biteq(Y, y0):
+        changed.append("Y")
+    if Yr is not Y and not biteq(Yr, r0):
+        changed.append("Yref")
+    if changed:
+        bad = Y if "Y" in changed else Yr
+        good = y0 if "Y" in changed else r0
+        pos = tuple(int(v) for v in np.argwhere(bad != good)[0]) if np.any(bad != good) else None
+        ofail(ctx, "C12:%s:input-altered" % method,
+              "build_hank %s altered the caller's %s in place (first difference at %s: %r -> %r)"
+              % (method, " and ".join(changed), pos, None if pos is None else float(good[pos]), None if pos is None else float(bad[pos])),
+              case if case is not None else dict(method=method, br=br, Y=y0.tolist() if y0.size <= 4000 else "shape %s" % (y0.shape,),
+                                                 Yref="the same object as Y" if Yr is Y else (r0.tolist() if r0.size <= 4000 else "shape %s" % (r0.shape,))))
+        if restore:
+            Y[...] = y0
+            if Yr is not Y:
+                Yr[...] = r0
+    return H
 
 
 def dyad(rng, shape, bits=6):
     return rng.integers(-(2**bits), 2**bits + 1, size=shape) / float(2 ** (bits - 2))
 
 
-def measure(method, l, r, br, Ndat):
+def measure(ctx, method, l, r, br, Ndat):
     """Evaluate build_hank on every pair of unit impulses: coefficient tensor c[I,J,a,t1,b,t2]."""
     R, C = (br + 1) * l, (br + 1) * r
     c = np.zeros((R, C, l, Ndat, r, Ndat))
@@ -26,7 +69,7 @@ def measure(method, l, r, br, Ndat):
                 for t2 in range(Ndat):
                     Yr = np.zeros((r, Ndat))
                     Yr[b, t2] = 1.0
-                    H, _ = ssi.build_hank(Y, Yr, br, method)
+                    H = bh(ctx, Y, Yr, br, method)
                     if H.shape != (R, C):
                         return None, "shape %s != %s" % (H.shape, (R, C))
                     c[:, :, a, t1, b, t2] = H
@@ -54,7 +97,7 @@ def structure(c, method, l, r, br, Ndat):
                     nz = np.argwhere(k != 0)
                     if len(nz) == 0:
                         return None, dict(what="entry is identically zero", i=i, j=j, a=a, b=b)
-                    lags = set((t1 - t2) for t1, t2 in nz)
+                    lags = set(int(t1 - t2) for t1, t2 in nz)
                     if len(lags) != 1:
                         return None, dict(what="entry mixes several lags %s" % sorted(lags), i=i, j=j, a=a, b=b)
                     vals = set(float(k[t1, t2]) for t1, t2 in nz)
@@ -113,10 +156,370 @@ def independent(method, Y, Yr, br):
     return H
 
 
+def independent_vec(method, Y, Yr, br):
+    """The same definition as independent(), one vectorised dot product per entry (O(N) per entry; for long records)."""
+    l, Ndat = Y.shape
+    r = Yr.shape[0]
+    q = br + 1
+    N = Ndat - br - q
+    H = np.zeros(((br + 1) * l, (br + 1) * r))
+    for i in range(br + 1):
+        for j in range(br + 1):
+            if method == "cov_mm":
+                t = np.arange(q - j, q - j + N - 1)  # sample index of the reference factor
+                H[i * l:(i + 1) * l, j * r:(j + 1) * r] = [[np.dot(Y[a, t + (i + j + 1)], Yr[b, t]) / N for b in range(r)] for a in range(l)]
+            else:
+                k = br + i - j
+                t = np.arange(0, Ndat - k)  # sample index of the data factor
+                H[i * l:(i + 1) * l, j * r:(j + 1) * r] = [[np.dot(Y[a, t], Yr[b, t + k]) / (Ndat - k) for b in range(r)] for a in range(l)]
+    return H
+
+
+def projection_gram(Y, Yr, br):
+    """Property text for 'dat', written from the definition in NumPy: at the present instant t the future outputs are
+    Y[a, t+i] (i = 0..br, all channels) and the past reference outputs are Yr[b, t-1-j] (j = 0..br).  Returns the Gram
+    matrix of the orthogonal projection of the future on the past, P S^-1 P^T with P = F Pa^T, S = Pa Pa^T (sums over the
+    instants t for which every needed sample exists, first sample left out as in the model), and cond(S)."""
+    l, Ndat = Y.shape
+    r = Yr.shape[0]
+    t = np.arange(br + 2, Ndat - br)
+    F = np.vstack([Y[a, t + i] for i in range(br + 1) for a in range(l)])
+    Pa = np.vstack([Yr[b, t - 1 - j] for j in range(br + 1) for b in range(r)])
+    P = F @ Pa.T
+    S = Pa @ Pa.T
+    cond = np.linalg.cond(S)
+    if not np.isfinite(cond) or cond > 1e8:
+        return None, cond
+    return P @ np.linalg.solve(S, P.T), cond
+
+
+ALIAS_FORMS = {
+    # name -> (group of reference VALUES, how the reference argument is obtained from Y)
+    "same-object": ("all", lambda Y, r: Y),
+    "view-all": ("all", lambda Y, r: Y[:]),
+    "fancy-all": ("all", lambda Y, r: Y[list(range(Y.shape[0]))]),
+    "independent-all": ("all", lambda Y, r: Y.copy()),
+    "view-head": ("head", lambda Y, r: Y[:r]),
+    "fancy-head": ("head", lambda Y, r: Y[list(range(r))]),
+    "independent-head": ("head", lambda Y, r: np.array(Y[:r], copy=True)),
+    "view-tail": ("tail", lambda Y, r: Y[Y.shape[0] - r:]),
+    "fancy-tail": ("tail", lambda Y, r: Y[list(range(Y.shape[0] - r, Y.shape[0]))]),
+    "view-reversed": ("rev", lambda Y, r: Y[::-1]),
+    "fancy-reversed": ("rev", lambda Y, r: Y[list(range(Y.shape[0] - 1, -1, -1))]),
+}
+
+
+def alias_case(ctx, method, Y0, br, r, forms, inst_ok=True, tag="alias"):
+    """Property text under every way of passing the reference records (same object, basic-slice view, fancy-index copy,
+    independent array), two builds on the same arrays each.  Y0 float64, never handed to build_hank itself."""
+    l, Ndat = Y0.shape
+    N = Ndat - 2 * br - 1
+    ratios = {}
+    first = {}
+    for form in forms:
+        group, make = ALIAS_FORMS[form]
+        Y = Y0.copy()
+        Yr = make(Y, r)
+        Yr0 = Yr.copy()
+        r_ = Yr0.shape[0]
+        case = dict(kind=tag, method=method, l=l, r=r_, br=br, Ndat=Ndat, form=form, Y=Y0.tolist(),
+                    Yref="Y itself (same object)" if Yr is Y else "%s of Y, values %s" % (form, Yr0.tolist()))
+        ctx.count(case)
+        ctx.hist("alias-form", (method, form))
+        H1 = bh(ctx, Y, Yr, br, method, case, restore=False)
+        H2 = bh(ctx, Y, Yr, br, method, case, restore=True)
+        if H1.shape != ((br + 1) * l, (br + 1) * r_):
+            ofail(ctx, "C12:%s:shape" % method, "build_hank %s (%s): wrong shape %s" % (method, form, H1.shape), case)
+            continue
+        scale = max(np.abs(H1).max(), 1e-300)
+        if H2.shape != H1.shape or not np.allclose(H1, H2, rtol=0, atol=1e-12 * scale):
+            ofail(ctx, "C12:%s:repeat" % method,
+                  "build_hank %s (%s): a second build on the same arrays gives a different matrix (max |H1| %.6g, max |H2| %.6g, max |H1-H2| %.3g)"
+                  % (method, form, np.abs(H1).max(), np.abs(H2).max(), np.abs(H1 - H2).max()), case)
+        if method == "dat":
+            G, cond = projection_gram(Y0, Yr0, br)
+            if G is None:
+                ctx.not_judged += 1
+                continue
+            HH = H1 @ H1.T
+            ratio = np.trace(HH) / np.trace(G)
+            if not (ratio > 0) or not np.allclose(HH, ratio * G, rtol=0, atol=1e-8 * np.abs(HH).max()):
+                ofail(ctx, "C12:dat:gram", "build_hank dat (%s): H H^T is not a positive multiple of the Gram matrix of the projection of the future "
+                      "on the past references (trace %.6g against %.6g, max deviation from proportionality %.3g of %.3g)"
+                      % (form, np.trace(HH), np.trace(G), np.abs(HH - ratio * G).max(), np.abs(HH).max()), case)
+                continue
+            ratios.setdefault(group, []).append((form, ratio, np.trace(HH), case))
+        else:
+            if inst_ok:
+                Hdef = independent_vec(method, Y0, Yr0, br)
+                if not np.allclose(H1, Hdef, rtol=0, atol=1e-9 * max(1.0, np.abs(Hdef).max())):
+                    ofail(ctx, "C12:%s:def" % method, "build_hank %s (%s) differs from the definition (independent construction), max deviation %.3g"
+                          % (method, form, np.abs(H1 - Hdef).max()), case)
+            if group in first:
+                f0, Hf = first[group]
+                if not np.allclose(H1, Hf, rtol=0, atol=1e-12 * max(1.0, np.abs(Hf).max())):
+                    ofail(ctx, "C12:%s:alias" % method, "build_hank %s: the matrix depends on how the same reference records are passed (%s against %s), max deviation %.3g"
+                          % (method, form, f0, np.abs(H1 - Hf).max()), case)
+            else:
+                first[group] = (form, H1)
+    # 'dat': the normalisation is free, but one normalisation: same data => same Gram, however the reference is passed
+    for group, lst in ratios.items():
+        ref = next((x for x in lst if x[0].startswith("independent")), lst[0])
+        for form, ratio, tr, case in lst:
+            if abs(ratio / ref[1] - 1) > 1e-9:
+                ofail(ctx, "C12:dat:alias", "build_hank dat: Gram matrix depends on whether Yref aliases Y: with %s expected trace %.6g (as for %s), got %.6g (ratio %.6g, 1/N = %.6g)"
+                      % (form, ref[2], ref[0], tr, ratio / ref[1], 1.0 / N), case)
+    return ratios
+
+
+_CONV = {}
+
+
+def convention(ctx, method, br):
+    """(sign, inst_ok) measured on a tiny impulse basis: sign=+1 when the data factor is LATER than the reference factor;
+    inst_ok when window and weight are those of the present instance (then the definition can be compared entry by entry)."""
+    if (method, br) not in _CONV:
+        Ndat = 2 * br + 6
+        c, err = measure(ctx, method, 1, 1, br, Ndat)
+        out = None
+        if not err:
+            params, bad = structure(c, method, 1, 1, br, Ndat)
+            if not bad:
+                N = Ndat - 2 * br - 1
+                sign = 1 if any(p[2] > 0 for p in params.values()) else -1
+                ok = all((params[(i, j)][0] == list(range(br + 1 - j, br + 1 - j + N - 1)) and abs(params[(i, j)][1] - 1.0 / N) < 1e-12 and params[(i, j)][3] == 0)
+                         if method == "cov_mm" else
+                         (params[(i, j)][0] == list(range(0, Ndat - (br + i - j))) and abs(params[(i, j)][1] - 1.0 / (Ndat - (br + i - j))) < 1e-12 and params[(i, j)][2] == 0)
+                         for i in range(br + 1) for j in range(br + 1))
+                out = (sign, ok)
+        _CONV[(method, br)] = out
+    return _CONV[(method, br)]
+
+
+def long_data(seed, l, Ndat):
+    """Replayable long record: dyadic values in [-4, 4], none of them zero (so that no product vanishes)."""
+    g = np.random.default_rng(seed)
+    Y = g.integers(-64, 65, size=(l, Ndat)) / 16.0
+    Y[Y == 0] = 0.0625
+    return Y
+
+
+def probe_positions(rng, Ndat, br, extra=()):
+    """Reference-sample indices whose product weights are probed: around k*N/nseg for nseg = 2..5 and the nseg a fixed
+    segment length of 2**15 would give, around multiples of 2**15, and random ones; kept away from the record ends."""
+    q = br + 1
+    N = Ndat - 2 * br - 1
+    lo, hi = 3 * q + 2, Ndat - 3 * q - 3
+    cs = set()
+    for M in (N - 1, N, Ndat):
+        for nseg in sorted({2, 3, 4, 5, int(np.ceil(M / 2.0**15))}):
+            for k in range(1, nseg):
+                cs.add(k * M // nseg)
+                cs.add(-((-k * M) // nseg))
+    for k in range(1, Ndat // 2**15 + 1):
+        cs.add(k * 2**15)
+    ts = set(int(t) for t in extra)
+    for c in cs:
+        ts.update(range(c - 2, c + q + 3))
+    ts.update(int(t) for t in rng.integers(lo, hi, size=24))
+    return sorted(t for t in ts if lo <= t < hi)
+
+
+def long_case(ctx, rng, method, Ndat, l, r, br, form, seed, extra=(), tag="long"):
+    """Records longer than 2**15 samples: the definition by an O(N) construction on random data, and single product
+    weights read through bilinearity (reference = indicator of one sample)."""
+    q = br + 1
+    N = Ndat - 2 * br - 1
+    Y0 = long_data(seed, l, Ndat)
+    Y = Y0.copy()
+    Yr = ALIAS_FORMS[form][1](Y, r)
+    Yr0 = Yr.copy()
+    r_ = Yr0.shape[0]
+    case = dict(kind=tag, method=method, Ndat=Ndat, N=N, l=l, r=r_, br=br, form=form, data_seed=seed,
+                data="Y = default_rng(data_seed).integers(-64, 65, (l, Ndat))/16 with zeros replaced by 1/16; Yref = %s of Y" % form)
+    ctx.count(case)
+    ctx.hist("long", (method, Ndat, l, r_, br, form))
+    H = bh(ctx, Y, Yr, br, method, case)
+    if H.shape != ((br + 1) * l, (br + 1) * r_):
+        ofail(ctx, "C12:%s:shape" % method, "build_hank %s: wrong shape %s for a record of %d samples" % (method, H.shape, Ndat), case)
+        return
+    if method == "dat":
+        G, cond = projection_gram(Y0, Yr0, br)
+        if G is None:
+            ctx.not_judged += 1
+            return
+        HH = H @ H.T
+        ratio = np.trace(HH) / np.trace(G)
+        if not (ratio > 0) or not np.allclose(HH, ratio * G, rtol=0, atol=1e-8 * np.abs(HH).max()):
+            ofail(ctx, "C12:dat:gram", "build_hank dat, %d samples: H H^T is not a positive multiple of the Gram matrix of the projection (trace %.6g against %.6g)"
+                  % (Ndat, np.trace(HH), np.trace(G)), case)
+        return ratio
+    conv = convention(ctx, method, br)
+    if conv is None:
+        return  # layout already reported on the small shapes
+    sign, inst_ok = conv
+    lagof = (lambda i, j: i + j + 1) if method == "cov_mm" else (lambda i, j: br + i - j)
+
+    def weights(Hp, a, b, t):
+        """weight of the product Y[a, t + sign*lag] * Yref[b, t] in every block, from a build with Yref = indicator(b, t)"""
+        w = np.zeros((br + 1, br + 1))
+        for i in range(br + 1):
+            for j in range(br + 1):
+                w[i, j] = Hp[i * l + a, j * r_ + b] / Y0[a, t + sign * lagof(i, j)]
+        return w
+
+    # (a) the definition on random data; a deviation is localised by bisection on the support of the reference
+    if inst_ok:
+        Hdef = independent_vec(method, Y0, Yr0, br)
+        tol = 1e-9 * max(1.0, np.abs(Hdef).max())
+        if not np.allclose(H, Hdef, rtol=0, atol=tol):
+            lo, hi = 0, Ndat
+            while hi - lo > 1:
+                mid = (lo + hi) // 2
+                Z = np.zeros_like(Yr0)
+                Z[:, lo:mid] = Yr0[:, lo:mid]
+                if not np.allclose(bh(ctx, Y0.copy(), Z, br, method), independent_vec(method, Y0, Z, br), rtol=0, atol=tol / 8):
+                    hi = mid
+                else:
+                    lo = mid
+            t = lo
+            Z = np.zeros_like(Yr0)
+            Z[:, t] = Yr0[:, t]
+            D = bh(ctx, Y0.copy(), Z, br, method) - independent_vec(method, Y0, Z, br)
+            I, J = np.unravel_index(np.argmax(np.abs(D)), D.shape)
+            i, a, j, b = I // l, I % l, J // r_, J % r_
+            lag = lagof(i, j)
+            wexp = 1.0 / N if method == "cov_mm" else 1.0 / (Ndat - lag)
+            if not np.abs(D).max() > tol / 64 or not 0 <= t + sign * lag < Ndat:
+                ofail(ctx, "C12:%s:long-def" % method, "build_hank %s, Ndat=%d (N=%d) differs from the definition (independent construction), max deviation %.3g"
+                      % (method, Ndat, N, np.abs(H - Hdef).max()), case)
+                return
+            wgot = wexp + D[I, J] / (Y0[a, t + sign * lag] * Yr0[b, t])
+            wgot = 0.0 if abs(wgot) < 1e-6 * wexp else wgot
+            ofail(ctx, "C12:%s:long-def" % method,
+                  "build_hank %s, Ndat=%d (N=%d) differs from the definition (max deviation %.3g): in entry (block %d, channel %d; block %d, reference %d) "
+                  "the product Y[%d,%d]*Yref[%d,%d] (lag %d) has weight %.6g, expected %.6g like the other products of the entry"
+                  % (method, Ndat, N, np.abs(H - Hdef).max(), i, a, j, b, a, t + sign * lag, b, t, lag, wgot, wexp),
+                  dict(case, t=int(t), entry=[int(i), int(a), int(j), int(b)]))
+    # (b) single product weights: uniform over the probed interior products of every entry
+    ts = probe_positions(rng, Ndat, br, extra)
+    ctx.hist("long-probes", len(ts))
+    W = np.zeros((len(ts), br + 1, br + 1))
+    chans = []
+    for n, t in enumerate(ts):
+        a, b = int(rng.integers(l)), int(rng.integers(r_))
+        Z = np.zeros((r_, Ndat))
+        Z[b, t] = 1.0
+        Hp = bh(ctx, Y0.copy(), Z, br, method)
+        W[n] = weights(Hp, a, b, t)
+        chans.append((a, b))
+        other = np.ones(r_, bool)
+        other[b] = False
+        if r_ > 1 and np.abs(Hp.reshape(Hp.shape[0], br + 1, r_)[:, :, other]).max() > 0:
+            ofail(ctx, "C12:%s:long-mix" % method, "build_hank %s, Ndat=%d: a reference impulse in channel %d at sample %d reaches the columns of another reference"
+                  % (method, Ndat, b, t), dict(case, t=int(t), ref_channel=b))
+    med = np.median(W, axis=0)
+    for i in range(br + 1):
+        for j in range(br + 1):
+            lag = lagof(i, j)
+            if not med[i, j] > 0:
+                ofail(ctx, "C12:%s:long-weights" % method, "build_hank %s, Ndat=%d: block (%d,%d) has no positive weight at lag %d" % (method, Ndat, i, j, lag), case)
+                continue
+            badn = np.nonzero(np.abs(W[:, i, j] - med[i, j]) > 1e-9 * med[i, j])[0]
+            if len(badn):
+                n = int(badn[0])
+                a, b = chans[n]
+                ofail(ctx, "C12:%s:long-weights" % method,
+                      "build_hank %s, Ndat=%d (N=%d): weights are not uniform inside entry (block %d, channel %d; block %d, reference %d): the product "
+                      "Y[%d,%d]*Yref[%d,%d] (lag %d, inside the averaging window) has weight %.6g, the other probed products have %.6g (%d of %d probed products deviate)"
+                      % (method, Ndat, N, i, a, j, b, a, ts[n] + sign * lag, b, ts[n], lag, 0.0 if abs(W[n, i, j]) < 1e-6 * med[i, j] else W[n, i, j], med[i, j],
+                         len(badn), len(ts)),
+                      dict(case, t=int(ts[n]), entry=[i, a, j, b], deviating_t=[int(ts[m]) for m in badn[:20]]))
+
+
+def glue_case(ctx, cls, method, data, ref, br, inst_ok=True, tag="class-glue"):
+    """result.H of the algorithm class = Hankel matrix of (all channels, reference channels in the listed order); the
+    setup's records are not altered; a second run gives the same matrix."""
+    from pyoma2.algorithms import SSIcov
+    from pyoma2.setup import SingleSetup
+    l = data.shape[1]
+    refl = list(range(l)) if ref is None else list(ref)
+    ordmax = min(4, (br + 1) * len(refl))
+    arr = data.copy()
+    ss = SingleSetup(arr, fs=10.0)
+    kw = dict(br=br, ordmax=ordmax, ref_ind=None if ref is None else list(ref))
+    alg = cls(name="a", method=method, **kw) if cls is SSIcov else cls(name="a", **kw)
+    ss.add_algorithms(alg)
+    ss.run_by_name("a")
+    Hc = np.array(alg.result.H)
+    case = dict(kind=tag, cls=cls.__name__, method=method, l=l, ref_ind=ref, br=br, data=data.tolist())
+    ctx.count(case)
+    ctx.hist("glue-ref", (method, "None" if ref is None else "all-natural" if refl == list(range(l)) else "all-permuted" if sorted(refl) == list(range(l))
+                          else "subset-sorted" if refl == sorted(refl) else "subset-unsorted"))
+    key = "C12:glue:%s" % method
+    if not biteq(arr, data):
+        ofail(ctx, "C12:glue:%s:input-altered" % method, "%s.run (ref_ind=%s) altered the records of the setup in place" % (cls.__name__, ref), case)
+        arr[...] = data
+    ss.run_by_name("a")
+    Hc2 = np.array(alg.result.H)
+    if Hc2.shape != Hc.shape or not np.allclose(Hc, Hc2, rtol=0, atol=1e-12 * np.abs(Hc).max()):
+        ofail(ctx, "C12:glue:%s:repeat" % method, "%s (ref_ind=%s): a second run on the same setup gives a different result.H (max |H| %.6g then %.6g)"
+              % (cls.__name__, ref, np.abs(Hc).max(), np.abs(Hc2).max()), case)
+    Yc = np.ascontiguousarray(data.T)
+    Yrc = np.array(Yc[refl, :], copy=True)
+    Hd = bh(ctx, Yc, Yrc, br, method)  # independent arrays: the form that the direct checks pin down
+    if Hc.shape != Hd.shape:
+        ofail(ctx, key, "%s.result.H (ref_ind=%s) has shape %s, expected %s" % (cls.__name__, ref, Hc.shape, Hd.shape), case)
+        return
+    if method == "dat":
+        G, cond = projection_gram(Yc, Yrc, br)
+        HH, HHd = Hc @ Hc.T, Hd @ Hd.T
+        if G is None:
+            ctx.not_judged += 1
+        elif not np.allclose(HH, np.trace(HH) / np.trace(G) * G, rtol=0, atol=1e-8 * np.abs(HH).max()):
+            ofail(ctx, key, "%s.result.H (ref_ind=%s): H H^T is not a positive multiple of the Gram matrix of the projection of the future outputs on the "
+                  "past outputs of the reference channels in the listed order" % (cls.__name__, ref), case)
+            return
+        if not np.allclose(HH, HHd, rtol=0, atol=1e-9 * np.abs(HHd).max()):
+            ofail(ctx, key, "%s.result.H (ref_ind=%s): Gram matrix is not that of build_hank(all channels, reference channels in listed order): "
+                  "expected trace %.6g, got %.6g" % (cls.__name__, ref, np.trace(HHd), np.trace(HH)), case)
+            return
+    else:
+        if inst_ok:
+            Hdef = independent_vec(method, Yc, Yrc, br)
+            if not np.allclose(Hc, Hdef, rtol=0, atol=1e-9 * max(1.0, np.abs(Hdef).max())):
+                I, J = np.unravel_index(np.argmax(np.abs(Hc - Hdef)), Hc.shape)
+                ofail(ctx, key, "%s.result.H (ref_ind=%s) differs from the definition with the reference channels in the listed order: entry (%d,%d) expected %.6g, got %.6g"
+                      % (cls.__name__, ref, I, J, Hdef[I, J], Hc[I, J]), case)
+                return
+    if not np.allclose(Hc, Hd, rtol=1e-10, atol=1e-12 * np.abs(Hd).max()):
+        ofail(ctx, key, "%s.result.H (ref_ind=%s) is not build_hank(all channels, reference channels in listed order)" % (cls.__name__, ref), case)
+
+
+def run_corpus(ctx, rng):
+    from pyoma2.algorithms import SSIcov, SSIdat
+    for path in sorted(glob.glob(os.path.join(VERIF, "corpus", "C12", "*.json"))):
+        c = json.load(open(path))
+        tag = "corpus:" + os.path.basename(path)
+        ctx.hist("corpus", os.path.basename(path))
+        if c["kind"] == "alias":
+            alias_case(ctx, c["method"], np.array(c["Y"], dtype=float), c["br"], c["r"], c["forms"], tag=tag)
+        elif c["kind"] == "long":
+            long_case(ctx, rng, c["method"], c["Ndat"], c["l"], c["r"], c["br"], c["form"], c["data_seed"], extra=c.get("probe_t", ()), tag=tag)
+        elif c["kind"] == "glue":
+            glue_case(ctx, SSIdat if c["cls"] == "SSIdat" else SSIcov, c["method"], np.array(c["data"], dtype=float), c["ref_ind"], c["br"], tag=tag)
+
+
 def run(ctx):
     rng = ctx.np_rng
     ctx.extra["rule"] = ("shapes (l,r,br,Ndat,method) x {impulse-basis measurement, random dyadic data}; a case is non-trivial when "
-                         "the data are not all zero and l*r*(br+1)>1; distinct by hash of (shape, data)")
+                         "the data are not all zero and l*r*(br+1)>1; distinct by hash of (shape, data); plus: every way of passing the "
+                         "reference records (same object / view / fancy copy / independent) with two builds each, records of 32.8k..131k "
+                         "samples (definition in O(N) + single product weights by indicator probes), class glue for ref_ind None / all / "
+                         "permuted / subsets; every build_hank call is followed by a bit-comparison of its arguments")
+    _CONV.clear()
+    # ---- corpus first (failing inputs of changes that once slipped through)
+    run_corpus(ctx, rng)
     ctx.assumptions += [
         "oracle contract (Section hypothesis of C12_dat_gram): numpy.linalg.qr returns R with Ys^T = Q R, Q^T Q = I, leading block invertible",
         "window/weight tables of the executed parametric model are MEASURED from build_hank on the unit-impulse basis (the property leaves them free)",
@@ -128,9 +531,10 @@ def run(ctx):
         shapes = [(l, r, br, Ndat) for l in (1, 2, 3, 4) for r in range(1, l + 1) for br in (1, 2, 3, 4, 5)
                   for Ndat in (2 * br + 6, 2 * br + 11) if Ndat <= 40 and l * r * Ndat * Ndat <= 6000]
     exprs, meta = [], []
+    inst = {"cov_mm": True, "cov_R": True, "dat": True}
     for method in ("cov_mm", "cov_R"):
         for (l, r, br, Ndat) in shapes:
-            c, err = measure(method, l, r, br, Ndat)
+            c, err = measure(ctx, method, l, r, br, Ndat)
             case0 = dict(method=method, l=l, r=r, br=br, Ndat=Ndat)
             ctx.hist("shape", (method, l, r, br))
             if err:
@@ -139,7 +543,8 @@ def run(ctx):
             params, bad = structure(c, method, l, r, br, Ndat)
             ctx.count(dict(case0, kind="impulse-basis"), nontrivial=True)
             if bad:
-                ctx.fail("oracle", "build_hank %s: %s" % (method, bad["what"]), dict(case0, **bad), key="C12:%s:%s" % (method, bad["what"][:40]))
+                ctx.fail("oracle", "build_hank %s: %s" % (method, bad["what"]), dict(case0, **bad),
+                         key="C12:%s:%s" % (method, "".join(ch for ch in bad["what"].split("[")[0] if ch.isalpha() or ch == " ").strip().replace(" ", "-")[:40]))
                 continue
             # present instance expected by the code-shaped model (difference = note only)
             p0 = params[(0, 0)]
@@ -150,6 +555,7 @@ def run(ctx):
                 (params[(i, j)][0] == list(range(0, Ndat - (br + i - j))) and abs(params[(i, j)][1] - 1.0 / (Ndat - (br + i - j))) < 1e-12 and params[(i, j)][2] == 0)
                 for i in range(br + 1) for j in range(br + 1))
             if not inst_ok:
+                inst[method] = False
                 ctx.note("measured window/weight of %s differ from the instance of C12_%s_is_gen (allowed by the property): %s" % (method, "mm" if method == "cov_mm" else "R", p0))
             # ---- random data, reference = subset rows or independent rows
             nrep = ctx.n(3, 4)
@@ -163,8 +569,8 @@ def run(ctx):
                 else:
                     ref = None
                     Yr = dyad(rng, (r, Ndat))
-                H, _ = ssi.build_hank(Y, Yr, br, method)
                 case = dict(case0, Y=Y.tolist(), Yref=Yr.tolist(), ref=ref)
+                H = bh(ctx, Y, Yr, br, method, case)
                 ctx.count(case, nontrivial=bool(np.any(Y) and np.any(Yr)))
                 ctx.sample(dict(case0, Y=Y.tolist()[:1], note="first channel only shown"))
                 # property text (independent construction), allowed to differ by the measured positive weights only
@@ -183,9 +589,8 @@ def run(ctx):
                 Z = dyad(rng, (l, Ndat))
                 Zr = dyad(rng, (r, Ndat))
                 g, h = 1.5, -0.75
-                H2, _ = ssi.build_hank(g * Y + Z, h * Yr + Zr, br, method)
-                Hs = (g * h * H + g * ssi.build_hank(Y, Zr, br, method)[0] + h * ssi.build_hank(Z, Yr, br, method)[0]
-                      + ssi.build_hank(Z, Zr, br, method)[0])
+                H2 = bh(ctx, g * Y + Z, h * Yr + Zr, br, method)
+                Hs = g * h * H + g * bh(ctx, Y, Zr, br, method) + h * bh(ctx, Z, Yr, br, method) + bh(ctx, Z, Zr, br, method)
                 if not np.allclose(H2, Hs, rtol=1e-9, atol=1e-9 * (1 + np.abs(Hs).max())):
                     ctx.fail("oracle", "build_hank %s is not bilinear" % method, case, key="C12:%s:bilinear" % method)
     res = ctx.coq_eval(HEADER, exprs, shard=12)
@@ -208,8 +613,8 @@ def run(ctx):
             ref = sorted(rng.choice(l, size=min(r, l), replace=False).tolist())
             Yr = Y[ref, :] if rep == 0 else dyad(rng, (r, Ndat))
             r_ = Yr.shape[0]
-            H, _ = ssi.build_hank(Y, Yr, br, "dat")
             case = dict(method="dat", l=l, r=r_, br=br, Ndat=Ndat, Y=Y.tolist(), Yref=Yr.tolist())
+            H = bh(ctx, Y, Yr, br, "dat", case)
             ctx.count(case)
             ctx.hist("shape", ("dat", l, r_, br))
             if H.shape != ((br + 1) * l, (br + 1) * r_):
@@ -235,27 +640,46 @@ def run(ctx):
         elif abs(ratio * N - 1) > 1e-8:
             ctx.note("dat Gram differs from the model instance by the positive scalar %.6g (normalisation is not pinned by the property)" % (ratio * N))
 
-    # ---- glue: result.H of the algorithm classes = build_hank(data.T, data.T[ref_ind])
+    # ---- every way of passing the reference records, two builds each (all three methods)
+    ashapes = [(2, 1, 1), (3, 2, 2), (4, 3, 1)] if ctx.quick() else [(l, r, br) for l in (1, 2, 3, 4) for r in range(1, l + 1) for br in (1, 2, 3)]
+    for method in ("cov_mm", "cov_R", "dat"):
+        for (l, r, br) in ashapes:
+            for rep in range(ctx.n(1, 2)):
+                Ndat = 2 * br + 6 + int(rng.integers(0, 8)) + (3 * (br + 1) * 2 * l if method == "dat" else 0)
+                Y0 = dyad(rng, (l, Ndat))
+                alias_case(ctx, method, Y0, br, r, list(ALIAS_FORMS), inst_ok=inst[method])
+
+    # ---- long records (more than 2**15 samples)
+    if ctx.quick():
+        longs = [("cov_mm", 32772, 1, 1, 1, "same-object"), ("cov_mm", 32800, 2, 1, 1, "view-head"), ("cov_mm", 50000, 2, 1, 2, "fancy-head"),
+                 ("cov_mm", 65600, 1, 1, 2, "independent-all"), ("cov_mm", 100003, 2, 2, 1, "same-object"), ("cov_mm", 131072, 2, 1, 2, "view-tail"),
+                 ("cov_R", 32800, 2, 1, 1, "view-head"), ("cov_R", 50000, 1, 1, 2, "same-object"), ("cov_R", 131072, 2, 2, 1, "fancy-all"),
+                 ("dat", 32800, 2, 1, 1, "view-head"), ("dat", 131072, 2, 2, 1, "same-object")]
+    else:
+        longs = []
+        for method in ("cov_mm", "cov_R", "dat"):
+            for Ndat in [32768 + 2 * 1 + 1, 32768 + 2 * 1 + 2, 32800, 50000, 65536 + 4, 65600, 98304 + 5, 100003, 131072, 200001, 262144 + 7, 500000] + \
+                    [int(v) for v in rng.integers(32769, 400000, size=6)]:
+                l = int(rng.integers(1, 3))
+                br = int(rng.integers(1, 3)) if Ndat > 32775 else 1
+                form = ["same-object", "view-head", "fancy-head", "independent-head", "view-tail", "fancy-all"][int(rng.integers(6))]
+                longs.append((method, Ndat, l, int(rng.integers(1, l + 1)), br, form))
+    for n, (method, Ndat, l, r, br, form) in enumerate(longs):
+        long_case(ctx, rng, method, Ndat, l, r, br, form, [int(ctx.seed), 12, n])
+
+    # ---- glue: result.H of the algorithm classes = Hankel matrix of (data.T, data.T[ref_ind]), ref_ind None = all channels
     from pyoma2.algorithms import SSIcov, SSIdat
-    from pyoma2.setup import SingleSetup
-    for k in range(ctx.n(4, 16)):
-        l = int(rng.integers(2, 5))
-        ref = sorted(rng.choice(l, size=int(rng.integers(1, l + 1)), replace=False).tolist())
-        if k % 2:
-            ref = ref[::-1]
+    for k in range(ctx.n(2, 8)):
+        l = int(rng.integers(3, 5)) if k % 2 == 0 else int(rng.integers(2, 5))
         br = int(rng.integers(2, 5))
         data = dyad(rng, (400, l))
-        ordmax = min(4, (br + 1) * len(ref))
-        for cls, method in ((SSIcov, "cov_mm"), (SSIcov, "cov_R"), (SSIdat, "dat")):
-            ss = SingleSetup(data.copy(), fs=10.0)
-            kw = dict(br=br, ordmax=ordmax, ref_ind=ref)
-            alg = cls(name="a", method=method, **kw) if cls is SSIcov else cls(name="a", **kw)
-            ss.add_algorithms(alg)
-            ss.run_by_name("a")
-            Hc = alg.result.H
-            Hd, _ = ssi.build_hank(data.T, data.T[ref, :], br, method)
-            case = dict(kind="class-glue", cls=cls.__name__, method=method, l=l, ref=ref, br=br)
-            ctx.count(case)
-            if Hc.shape != Hd.shape or not np.allclose(Hc, Hd, rtol=1e-12, atol=0):
-                ctx.fail("oracle", "%s.result.H is not build_hank(all channels, reference channels in listed order)" % cls.__name__, case,
-                         key="C12:glue:%s" % method)
+        perm = rng.permutation(l).tolist()
+        while perm == list(range(l)):
+            perm = rng.permutation(l).tolist()
+        sub = sorted(rng.choice(l, size=int(rng.integers(min(2, l - 1), l)), replace=False).tolist())
+        refs = [None, list(range(l)), perm, sub[::-1], sub, list(range(l))[::-1]]
+        if ctx.quick():
+            refs = refs[:4] + [refs[4 + k % 2]]
+        for ref in refs:
+            for cls, method in ((SSIcov, "cov_mm"), (SSIcov, "cov_R"), (SSIdat, "dat")):
+                glue_case(ctx, cls, method, data, ref, br, inst_ok=inst[method])
